@@ -178,6 +178,25 @@ def run_chain(spec, work, ctx):
                   [ref.path], [stats], watch, empties)
     if e:
         return f'stats raised {e[-300:]}'
+    # the same reference in the other encodings (CSC goes through the
+    # on-disk CSC->CSR conversion in the default temporary directory)
+    for enc in ('dense', 'csr', 'csc'):
+        rp = ind / f'ref_{enc}.h5ad'
+        obs_extra = {lv: [ref.model.ancestor(ref.model.leaf_level, l, lv)
+                          for l in ref.labels]
+                     for lv in ref.model.hierarchy}
+        mapworld.write_h5ad(rp, ref.X, ref.cells, ref.genes, encoding=enc,
+                            obs_extra=obs_extra)
+        alt = pw.Ref()
+        alt.__dict__.update(ref.__dict__)
+        alt.path = rp
+        so = outd / f'stats_{enc}.h5'
+        e = monitored(ctx, f'stats-{enc}',
+                      lambda: pw.run_stats(alt, so, scratch, n_processors=2,
+                                           rows_at_a_time=6),
+                      [rp], [so], watch, empties)
+        if e:
+            return f'stats ({enc}) raised {e[-300:]}'
     e = monitored(ctx, 'reference-markers',
                   lambda: pw.run_ref_markers(stats, refm, scratch,
                                              n_processors=3),
